@@ -52,8 +52,16 @@ FAMILIES = {
                 GroupChoices="GroupChoicesS", DepositChoices=[2], PriceChoices=[1, 2], AmountChoices=[1],
                 Versions=[1], Gaps=[1, 2], InitCoins=3, MaxHeight=4),
     "SQ3": dict(BASE, Tenants=["t1"], Providers=["p1"], Auditors=[], DSeqs=[1], GSeqs=[1, 2], OSeqs=[1],
-                GroupChoices="GroupChoicesS2", DepositChoices=[3], PriceChoices=[1], AmountChoices=[1],
-                Versions=[1], Gaps=[1, 2], InitCoins=4, MaxHeight=3),
+                GroupChoices="GroupChoicesS2", DepositChoices=[2], PriceChoices=[1], AmountChoices=[1],
+                Versions=[1], Gaps=[1, 2], InitCoins=3, MaxHeight=4),
+    # two groups x two order generations, one provider: leases at mirrored (gseq, oseq) coordinates
+    "SQ5": dict(BASE, Tenants=["t1"], Providers=["p1"], Auditors=[], DSeqs=[1], GSeqs=[1, 2], OSeqs=[1, 2],
+                GroupChoices="GroupChoicesS2", DepositChoices=[4], PriceChoices=[1], AmountChoices=[],
+                Versions=[1], Gaps=[1], InitCoins=6, MaxHeight=2),
+    # auditor lists: every (all-of, any-of) shape x attestations of two auditors
+    "RA": dict(BASE, Tenants=["t1"], Providers=["p1"], Auditors=["a1", "a2"], DSeqs=[1], GSeqs=[1], OSeqs=[1],
+               GroupChoices="GroupChoicesRA", DepositChoices=[3], PriceChoices=[1], AmountChoices=[], AttrChoices="AttrChoicesRA",
+               KeyChoices="KeyChoicesRA", Versions=[1], Gaps=[], InitCoins=5, MaxHeight=1),
     # exhaustive: every state and every transition of this bounded model is visited by TLC
     "SX": dict(BASE, Tenants=["t1"], Providers=["p1", "p2"], Auditors=[], DSeqs=[1], GSeqs=[1], OSeqs=[1, 2],
                GroupChoices="GroupChoicesS", DepositChoices=[2], PriceChoices=[1], AmountChoices=[1],
@@ -77,13 +85,13 @@ ESCROW_FAMILIES = {
 FAMILIES.update(ESCROW_FAMILIES)
 
 # which families matter for which property (quick tier); thorough runs all of them
-QUICK = {"C01": ["SQ1", "SQ3", "A", "E"], "C02": ["E", "E3q", "A", "S"], "C03": ["SQ1", "SQ2", "S", "E"], "C04": ["SQ1", "SQ2", "SQ3", "A"],
-         "C05": ["SQ1", "SQ2", "SQ3", "S"], "C06": ["B", "R", "SQ2", "SQ3"], "C07": ["R", "E", "A"], "C08": ["RX", "R"],
-         "C16": ["SQ1", "SQ2", "SQ3", "R"]}
+QUICK = {"C01": ["SQ1", "SQ3", "A", "E"], "C02": ["E", "E3q", "A", "S"], "C03": ["SQ1", "SQ2", "SQ3", "S", "E"],
+         "C04": ["SQ1", "SQ2", "SQ3", "S"], "C05": ["SQ1", "SQ2", "SQ3", "SQ5", "S"], "C06": ["B", "R", "SQ2", "SQ3"],
+         "C07": ["R", "E", "A"], "C08": ["RX", "RA", "R"], "C16": ["SQ1", "SQ2", "SQ3", "R"]}
 THOROUGH = {"C01": ["SX", "E", "EL", "S", "A", "B"], "C02": ["SX", "E", "E3q", "EL", "A", "S"], "C03": ["SX", "E", "EL", "S", "A"],
-            "C04": ["SX", "SQ3", "S", "A", "B"], "C05": ["SX", "SQ3", "S", "A", "B"], "C06": ["SX", "RX", "E", "B", "R", "S"],
-            "C07": ["SX", "RX", "R", "S", "A"], "C08": ["RX", "SX", "R"], "C16": ["SX", "RX", "SQ3", "S", "A", "R", "B"]}
-EXHAUSTIVE = {"SX", "SQ1", "SQ2", "SQ3", "RX", "E", "E3", "E3q"}
+            "C04": ["SX", "SQ3", "S", "A", "B"], "C05": ["SX", "SQ3", "SQ5", "S", "A", "B"], "C06": ["SX", "RX", "E", "B", "R", "S"],
+            "C07": ["SX", "RX", "R", "S", "A"], "C08": ["RX", "RA", "SX", "R"], "C16": ["SX", "RX", "SQ3", "S", "A", "R", "B"]}
+EXHAUSTIVE = {"SX", "SQ1", "SQ2", "SQ3", "SQ5", "RX", "RA", "E", "E3", "E3q"}
 PAR = max(2, min(8, vlib.NCPU // 2))     # concurrent harness processes / J3 JVMs
 ROUNDTRIPS = 3        # per harness shard: states at which the genesis export/import round trip is recorded
 NODE_CAP_QUICK = 80000
@@ -208,8 +216,8 @@ def run_harness(vh, fam, work, nodes, alpha, expand, seed, shards, reps):
         cmd = [vh, "chain", "explore", "--config", os.path.join(work, "world.json"), "--paths", os.path.join(work, "paths.%d.ndjson" % i),
                "--alphabet", os.path.join(work, "alphabet.json"), "--out", out, "--nodes", str(per), "--seed", str(seed + i),
                "--shard", "0", "--shards", "1", "--reps", str(reps), "--reps-audit", str(max(4, reps)),
-               "--maxheight", str(maxh), "--all-paths", "--roundtrips", str(ROUNDTRIPS)] + (["--second-app"] if reps >= 3 else [])
-        env = dict(os.environ, GOGC="50", GOMAXPROCS="2")
+               "--maxheight", str(maxh), "--all-paths", "--roundtrips", str(ROUNDTRIPS)] + (["--second-app", "--noise"] if reps >= 3 else [])
+        env = dict(os.environ, GOGC="50", GOMAXPROCS="3" if reps >= 3 else "2")
         rc, txt = vlib.run(cmd, timeout=3000, env=env)
         if rc != 0:
             raise vlib.Inconclusive("harness failed (family %s shard %d): %s" % (fam, i, txt[-2000:]))
